@@ -31,8 +31,8 @@ def run(c):
         trace = c.replay
     else:
         trace = c.scratch + "/auth.ndjson"
-        c.run_driver(drv, ["-mode", "auth", "-out", trace, "-n", 40 if c.thorough else 11])
-    r = _wire.validate_table(c, "WireAuthTrace", "WireAuthTrace.cfg", trace, min_chunk=10)
+        c.run_driver(drv, ["-mode", "auth", "-out", trace, "-n", 40 if c.thorough else 8])
+    r = _wire.validate_table(c, "WireAuthTrace", "WireAuthTrace.cfg", trace, chunks=6 if c.thorough else 3, min_chunk=10)
     _wire.judge_table(c, r, trace, maxlen=160)
     n = flips = unbuilt = 0
     shapes = set()
